@@ -1,8 +1,8 @@
 (* C16: the retry loops behind "post returned e" of Model/Collector.v:
-     pkg/backends/datadog/datadog.go   (*Client).post
-     pkg/backends/influxdb/influxdb.go (*Client).post
-     pkg/backends/newrelic/newrelic.go (*Client).post          (incl. the Retry-After handling)
-     pkg/backends/otlp/backend.go      (*Backend).postMetrics  (max_retries, partial success)
+     pkg/backends/datadog/datadog.go   Client.post
+     pkg/backends/influxdb/influxdb.go Client.post
+     pkg/backends/newrelic/newrelic.go Client.post          (incl. the Retry-After handling)
+     pkg/backends/otlp/backend.go      Backend.postMetrics  (max_retries, partial success)
    as ONE function over three scripts, each indexed by the attempt number i = 0, 1, ...:
      srv i : what the i-th attempt got (the transport's answer),
      bo i  : what the i-th call of backoff.NextBackOff returns, None = backoff.Stop (every failed
@@ -96,3 +96,40 @@ Definition is_success (b : backend) (a : answer) : bool :=
   match classify b a with VSuccess => true | _ => false end.
 Definition is_retry (b : backend) (a : answer) : bool :=
   match classify b a with VRetry _ => true | _ => false end.
+
+(* attempt i ends in a wait: a retryable answer, NextBackOff (after the Retry-After lines) is not
+   Stop, otlp's max_retries not reached *)
+Definition waits (b : backend) (srv : nat -> answer) (bo : nat -> option Z) (i : nat) : bool :=
+  match classify b (srv i) with
+  | VRetry ra => match adjust b (bo i) ra with Some _ => negb (exhausted b i) | None => false end
+  | _ => false
+  end.
+
+
+(* ---------------------------------------------------------------------------------------- *)
+(* Composition with the collector of Model/Collector.v: the result a worker hands to the collector is
+   no longer a free label argument but what its post loop returns on the worker's own scripts. *)
+From GS Require Import Model.Collector.
+
+Definition cerr_of (r : result) : cerr :=
+  match r with RNil => ENil | RErr => EPost | RCtx => ECtx end.
+
+Record wenv := WEnv { w_b : backend; w_srv : nat -> answer; w_bo : nat -> option Z; w_cx : nat -> bool }.
+
+Inductive llabel :=
+| LBase (l : clabel)               (* any collector label except WPost *)
+| LPost (i : nat) (fuel : nat).    (* worker i's post returns: its loop finished within [fuel] attempts *)
+
+Definition lower (env : nat -> wenv) (l : llabel) : option clabel :=
+  match l with
+  | LBase (WPost _ _) => None
+  | LBase l' => Some l'
+  | LPost i fuel =>
+      match post (w_b (env i)) (w_srv (env i)) (w_bo (env i)) (w_cx (env i)) fuel with
+      | Done r _ _ => Some (WPost i (cerr_of r))
+      | OutOfFuel => None
+      end
+  end.
+
+Definition cstepL (env : nat -> wenv) (s : cstate) (l : llabel) : option cstate :=
+  match lower env l with Some l' => cstep s l' | None => None end.
